@@ -19,7 +19,8 @@ make_kymo(image, *, route="lowlevel", calibration="um", pixel_size_um=0.1, line_
                      "array":    `_kymo_from_array(image, colour, line_time_s, pixel_size_um=…)`; `line_time_s` is
                         used verbatim (pass 0.5, 0.125, 0.0625·k … for exact float arithmetic on `seconds`).
     calibration      "um"    pixelsize = pixel_size_um (µm)
-                     "kbp"   `kymo.calibrate_to_kbp(kbp_length)`; default kbp_length = 0.4·n_pixels·… see code
+                     "kbp"   `kymo.calibrate_to_kbp(kbp_length)` on the um kymograph; default kbp_length = 0.6·n_pixels
+                             (pixelsize = kbp_length / n_pixels kbp, `pixelsize_um` keeps the µm value)
                      "pixel" uncalibrated (pixelsize == [1.0], `pixelsize_um == [None]`); forces route="array".
     returns a `lumicks.pylake.kymo.Kymo`; `kymo_info(kymo)` gives the numbers the models need.
 
